@@ -57,7 +57,7 @@ def elemQueries (accept : Bytes) : List Bytes :=
   | none => []
   | some (_, rest) =>
     if hasPrefix rest (b ";q=") && !(rest.drop 3).contains 59 then [trimRightOWS (rest.drop 3)]
-    else match (visitParams rest).find? (fun p => isQKey p.1) with
+    else match (scanParams rest).find? (fun p => isQKey p.1) with
       | some p => [p.2]
       | none => []
 
@@ -120,13 +120,23 @@ def handleCase (f : List String) : Except String Verdict := do
     let miss := (queries header).any fun s => (parseSimple s).isNone && (qtabV.find? (·.1 == s)).isNone
     -- tags
     let wfAst := match ast with | some es => wf es | none => false
-    let k1 := match ast with | some es => Known.K1 es | none => false
-    let k2 := match ast with | some es => Known.K2 es | none => false
+    let hasTab := match ast with
+      | some es => es.any fun e => e.lead.contains 9 || e.trail.contains 9 || e.params.any fun p => p.ows1.contains 9 || p.ows2.contains 9
+      | none => false
+    let hasEmptyPar := match ast with
+      | some es => es.any fun e => e.params.any (·.name == [])
+      | none => false
+    let hasDup : Bool := match ast with
+      | some es => es.any fun e =>
+          let ns := (mediaParams e.params).map fun p => toLower p.name
+          ns.length != ns.eraseDups.length
+      | none => false
     let astForSpec := if wfAst then ast else none
-    let known := if k1 then some "K1" else if k2 then some "K2" else none
     let ranges := parseRanges tab header
     let shape := if header == [] then "absent" else if ast.isNone then "raw" else if !wfAst then "nonwf"
-                 else if k1 then "k1" else if k2 then "k2" else "strict"
+                 else if hasDup then "wf-duppar"
+                 else if hasTab && hasEmptyPar then "wf-htab-emptypar" else if hasTab then "wf-htab"
+                 else if hasEmptyPar then "wf-emptypar" else "wf-plain"
     let nRanges := if ranges.length ≥ 3 then "ranges3+" else s!"ranges{ranges.length}"
     let hasQ0 := (mediaRanges header).length > ranges.length
     let tie := ranges.any fun r => ranges.any fun r' => r.order < r'.order && r.q.eq r'.q
@@ -141,7 +151,7 @@ def handleCase (f : List String) : Except String Verdict := do
       let tags := ["format", shape, nRanges] ++ nt ++ (if m.status == 406 then ["f406"] else []) ++
         (if miss then ["outside-model"] else [])
       return { id := id, modelObs := if miss then impl else renderFormat m, implObs := impl, spec := spec,
-               known := if spec.isSome then known else none, tags := tags }
+               tags := tags }
     else
       let k : Kind := if isMedia then .accept else .token
       let acc : Bytes → Bytes → Params → Bool := if isMedia then acceptsOfferType mime else acceptsOffer
@@ -158,7 +168,7 @@ def handleCase (f : List String) : Except String Verdict := do
         (if hasQ0 then ["q0"] else []) ++ (if withParams then ["params"] else []) ++ (if quoted then ["quoted"] else []) ++
         (if m == [] then ["none"] else ["some"]) ++ (if miss then ["outside-model"] else [])
       return { id := id, modelObs := if miss then impl else s!"r={toHexField m}", implObs := impl, spec := spec,
-               known := if spec.isSome then known else none, tags := tags }
+               tags := tags }
   | _ => throw s!"outside-domain: expected 8 fields, got {f.length}"
 
 def main : IO Unit := run handleCase
